@@ -10,6 +10,8 @@
 //   - callees: a method declared only in the same-named class of another package, an unresolved
 //     receiver without package (".list.add"), call Type values the Java front end writes
 //   - class-level calls (field initialisers): recorded in the class, made by no method
+//   - class Types other than "Class" (Interface, CreatorClass, InnerStructures); methods named
+//     like accessors or main (getM, setM, get, isM, main)
 //   - up to 8 classes
 //   - shape 3: a call tree of exactly K expandable methods (K = 5..9, the budget is 7)
 //   - overloads (two functions of one name in a class) when asked for (C04 only)
@@ -18,6 +20,7 @@ package c03
 import (
 	"fmt"
 
+	"github.com/modernizing/coca/pkg/domain/core_domain"
 	"pgregory.net/rapid"
 
 	"verif/internal/mgen"
@@ -34,7 +37,8 @@ var wExtPkgs = []string{"java.util", "org.ext", "x"}
 // pairs of packages where the first is a string suffix of the second
 var wSuffixPkgs = map[string][]string{"b": {"a.b", "ab"}, "c": {"a.c", "bc"}, "a.b": {"b"}, "ab": {"b"}, "a.c": {"c"}, "bc": {"c"}}
 
-var wAltMethodNames = []string{"m0", "m00", "xm0", "m1", "m01", "run"}
+var wAltMethodNames = []string{"m0", "m00", "xm0", "m1", "m01", "run", "getM", "setM", "get", "isM", "main"}
+var wClassTypes = []string{"", "Interface", "CreatorClass", "InnerStructures"}
 var wCallTypes = []string{"", "lambda", "CreatorClass", "field"}
 
 func wGen(t *rapid.T, o wOpts) mgen.Model {
@@ -89,6 +93,10 @@ func wGen(t *rapid.T, o wOpts) mgen.Model {
 		}
 		seen[pkg+"."+name] = true
 		c := mgen.Class{Pkg: pkg, Name: name}
+		if moreKinds {
+			// what the front end writes for interfaces (default methods have calls), anonymous and inner classes
+			c.Type = rapid.SampledFrom(wClassTypes).Draw(t, "classType")
+		}
 		nm := rapid.IntRange(minMethods, 4).Draw(t, "nMethods")
 		used := map[string]bool{}
 		for j := 0; j < nm; j++ {
@@ -274,6 +282,39 @@ func wMutate(t *rapid.T, m mgen.Model) mgen.Model {
 			x := rapid.SampledFrom(refs).Draw(t, "onlyCallee")
 			tc := out.Classes[x.ci]
 			mm.Calls = []mgen.Call{{Pkg: tc.Pkg, Node: tc.Name, Func: tc.Methods[x.mi].Name}}
+		}
+	}
+	return out
+}
+
+// toCoca converts a model and fills in, as a fixed function of the position in the model, the
+// fields a parsed project carries and the call relation does not depend on: positions (every call
+// site has its own), modifiers, @Override, return and parameter types.
+func toCoca(m mgen.Model) []core_domain.CodeDataStruct {
+	out := m.ToCoca()
+	for i := range out {
+		line := 3
+		for j := range out[i].Functions {
+			f := &out[i].Functions[j]
+			f.Position = core_domain.CodePosition{StartLine: line, StartLinePosition: 4, StopLine: line + len(f.FunctionCalls) + 1, StopLinePosition: 5}
+			switch (i + j) % 4 {
+			case 1:
+				f.Modifiers = []string{"public", "static"}
+			case 2:
+				f.Modifiers = []string{"public"}
+				f.Override = true
+				f.Annotations = []core_domain.CodeAnnotation{{Name: "Override"}}
+			case 3:
+				f.Modifiers = []string{"private"}
+				if !f.IsConstructor {
+					f.ReturnType = "String"
+				}
+				f.Parameters = []core_domain.CodeProperty{{TypeType: "int", TypeValue: "n"}}
+			}
+			for k := range f.FunctionCalls {
+				f.FunctionCalls[k].Position = core_domain.CodePosition{StartLine: line + 1 + k, StartLinePosition: 8 + k, StopLine: line + 1 + k, StopLinePosition: 30}
+			}
+			line += len(f.FunctionCalls) + 3
 		}
 	}
 	return out
